@@ -323,9 +323,17 @@ def write_if_changed(path: Path, text: str) -> bool:
 # ---------------------------------------------------------------------------
 
 def load_known() -> dict:
+    k = {"findings": [], "fixed": []}
     if KNOWN_FILE.exists():
-        return json.loads(KNOWN_FILE.read_text())
-    return {"findings": [], "fixed": []}
+        k = json.loads(KNOWN_FILE.read_text())
+    # fragments written by per-property builders; merged into known_findings.json by the integrator
+    d = VERIF / "known_findings.d"
+    if d.is_dir():
+        for f in sorted(d.glob("*.json")):
+            frag = json.loads(f.read_text())
+            k["findings"] += [x for x in frag.get("findings", []) if x not in k["findings"]]
+            k["fixed"] += [x for x in frag.get("fixed", []) if x not in k["fixed"]]
+    return k
 
 
 def known_match(prop_id: str, signature: str) -> Optional[dict]:
